@@ -26,7 +26,7 @@ From Coq Require String.
 Import ListNotations String.StringSyntax.
 Delimit Scope string_scope with str.
 From PV Require Import Generated.Reject Generated.SkyMask Generated.MaskInterp.
-From PV Require Import C17.Model C17.ProofsDilate C17.ProofsReject C17.ProofsInterp C17.ProofsAxis C17.ProofsLines C17.ProofsMedian C17.ProofsMedian2 C17.ProofsSky.
+From PV Require Import C17.Model C17.ProofsDilate C17.ProofsReject C17.ProofsInterp C17.ProofsAxis C17.ProofsLines C17.ProofsCall C17.ProofsMedian C17.ProofsMedian2 C17.ProofsSky.
 Open Scope Q_scope.
 
 (* ================================================================ dilation *)
@@ -275,6 +275,52 @@ Theorem C17_maskinterp_axis_of_shape : forall (ys : list Q) (mask : list bool) (
 Proof. exact maskinterp_axis_shape. Qed.
 Print Assumptions C17_maskinterp_axis_of_shape.
 
+(* round 5: the CALL djs_maskinterp(yval, mask, xval, axis).  Argument checks and the dispatch table on (ndim, xval
+   given, axis) down to the loops and index patterns of every leaf are GENERATED (nd_check_..., nd_axis_..., nd_table). *)
+
+(* the generated checks refuse a mask / xval of another shape and a missing axis; an axis is refused exactly when it
+   is not one of 0 .. ndim-1 *)
+Theorem C17_maskinterp_call_checks :
+  nd_check_mask_shape = true /\ nd_check_xval_shape = true /\ nd_axis_none_is_error = true /\
+  forall axis ndim : Z, nd_axis_invalid axis ndim = negb ((0 <=? axis)%Z && (axis <? ndim)%Z).
+Proof. exact nd_checks_generated. Qed.
+Print Assumptions C17_maskinterp_call_checks.
+
+(* for EVERY 2-D / 3-D shape, every axis and both xval variants the generated dispatch reaches a leaf that passes xval on
+   exactly when it is given and whose nested loops touch, in iteration order, exactly the lines of lines_pydl *)
+Theorem C17_maskinterp_dispatch : forall (shape : list nat) (hasx : bool) (axis : nat),
+  (length shape = 2 \/ length shape = 3)%nat -> (axis < length shape)%nat ->
+  exists e, nd_find nd_table (length shape) hasx (Z.of_nat axis) = Some e /\ e_passx e = hasx /\
+            entry_lines shape e = lines_pydl shape axis.
+Proof. exact nd_dispatch_general. Qed.
+Print Assumptions C17_maskinterp_dispatch.
+
+(* the same decided by computation for all shapes with sides 0..5 (kept as a fast regression of the table) *)
+Theorem C17_maskinterp_dispatch_bounded : nd_dispatch_check 5 = true.
+Proof. exact nd_dispatch_check_5. Qed.
+Print Assumptions C17_maskinterp_dispatch_bounded.
+
+(* M refuses a call exactly when S does (any number of dimensions, any shape) and never ends in another outcome *)
+Theorem C17_maskinterp_call_error_iff : forall (ys : list Q) (mask : list bool) (xval : option (list Q))
+    (shape mshape : list nat) (xshape : option (list nat)) (axis : option Z),
+  (maskinterp_call_model ys mask xval shape mshape xshape axis = NDErr <->
+   maskinterp_call_spec ys mask xval shape mshape xshape axis = NDErr) /\
+  maskinterp_call_model ys mask xval shape mshape xshape axis <> NDOther.
+Proof. exact call_model_error_iff_spec. Qed.
+Print Assumptions C17_maskinterp_call_error_iff.
+
+(* maskinterp_axis for the CALL: a valid call returns an array each of whose lines along the axis is the 1-D routine
+   applied to that line of the inputs *)
+Theorem C17_maskinterp_call_lines : forall (ys : list Q) (mask : list bool) (xval : option (list Q))
+    (shape mshape : list nat) (xshape : option (list nat)) (a : Z) (line : list nat),
+  (length shape = 2 \/ length shape = 3)%nat ->
+  shape_eqb mshape shape = true -> match xshape with Some xs => shape_eqb xs shape = true | None => True end ->
+  (0 <= a < Z.of_nat (length shape))%Z -> prod shape = length ys -> In line (lines_pydl shape (Z.to_nat a)) ->
+  exists m, maskinterp_call_model ys mask xval shape mshape xshape (Some a) = NDOk m /\
+            gather 0 m line = maskinterp1_model (gather 0 ys line) (gather false mask line) (option_map (fun xs => gather 0 xs line) xval).
+Proof. exact call_model_lines. Qed.
+Print Assumptions C17_maskinterp_call_lines.
+
 (* ================================================================ aesthetics *)
 
 (* aesthetics_support.  DESIGN.md states: ivar_i <> 0 -> out_i = flux_i for the four methods.  That full
@@ -288,6 +334,36 @@ Theorem C17_aesthetics_support_partial : forall (meth : amethod) (flux iv : list
   exists out, nth_error (aesthetics_model meth flux iv) i = Some out /\ out == f.
 Proof. exact aesthetics_support. Qed.
 Print Assumptions C17_aesthetics_support_partial.
+
+(* round 5: aesthetics_model is assembled from pieces GENERATED from aesthetics() (bad-pixel test, all-bad shortcut,
+   masks given to djs_maskinterp, good-pixel test and destination of the `mean` assignment); it IS the reference *)
+Theorem C17_aesthetics_generated_is_reference : forall (meth : amethod) (flux iv : list Q),
+  aesthetics_model meth flux iv = aesthetics_ref meth flux iv.
+Proof. exact aesthetics_generated_is_ref. Qed.
+Print Assumptions C17_aesthetics_generated_is_reference.
+
+(* what is missing from the full DESIGN statement, exactly: it is FALSE of the code for `mean` and a negative inverse
+   variance (flux 1 2 3 4, ivar 1 0 -1 2: pixel 2 becomes 5/2); replayed on the real code in notes/C17.md *)
+Theorem C17_aesthetics_support_mean_refuted :
+  exists (flux iv : list Q) (i : nat) (f v out : Q),
+    length iv = length flux /\ nth_error flux i = Some f /\ nth_error iv i = Some v /\ ~ v == 0 /\
+    nth_error (aesthetics_model Mean flux iv) i = Some out /\ ~ out == f.
+Proof. exact aesthetics_support_mean_refuted. Qed.
+Print Assumptions C17_aesthetics_support_mean_refuted.
+
+(* ... and that is the only exception: M differs from the input only where ivar = 0, or (mean) where ivar < 0 *)
+Theorem C17_aesthetics_support_exact : forall (meth : amethod) (flux iv : list Q) (i : nat) (f v out : Q),
+  length iv = length flux -> nth_error flux i = Some f -> nth_error iv i = Some v ->
+  nth_error (aesthetics_model meth flux iv) i = Some out -> ~ out == f ->
+  v == 0 \/ (meth = Mean /\ v < 0).
+Proof. exact aesthetics_support_exact. Qed.
+Print Assumptions C17_aesthetics_support_exact.
+
+(* no pixel with non-zero inverse variance: the spectrum is returned as it is, whatever the method *)
+Theorem C17_aesthetics_all_bad_identity : forall (meth : amethod) (flux iv : list Q),
+  (forall v, In v iv -> v == 0) -> aesthetics_model meth flux iv = flux.
+Proof. exact aesthetics_all_bad_identity. Qed.
+Print Assumptions C17_aesthetics_all_bad_identity.
 
 (* M = S when no inverse variance is negative *)
 Theorem C17_aesthetics_model_eq_spec : forall (meth : amethod) (flux iv : list Q) (i : nat),
@@ -427,4 +503,20 @@ Example C17_ex_skymask_signed :
 Proof. exact eq_refl. Qed.
 
 Example C17_ex_median : median_reflect_model [5; 1; 4; 2; 3]%Z 3 = MOk [5; 4; 2; 3; 3]%Z.
+Proof. exact eq_refl. Qed.
+
+(* round 5 *)
+Example C17_ex_aesthetics_all_bad : aesthetics_model Mean [1; 2; 3] [0; 0; 0] = [1; 2; 3].
+Proof. exact eq_refl. Qed.
+
+Example C17_ex_call_2d :
+  (* a 2 x 3 image, pydl axis 0 = along the rows; the masked middle sample of row 0 is interpolated *)
+  match maskinterp_call_model [1; 7; 3; 4; 5; 6] [false; true; false; false; false; false] None [2; 3]%nat [2; 3]%nat None (Some 0%Z) with
+  | NDOk l => map (fun v => Qeq_bool v 2) l | _ => [] end = [false; true; false; false; false; false].
+Proof. exact eq_refl. Qed.
+
+Example C17_ex_call_refused :
+  (maskinterp_call_model [1; 2; 3; 4] [false; true; false; false] None [2; 2]%nat [2; 2]%nat None (Some 2%Z),
+   maskinterp_call_model [1; 2; 3; 4] [false; true; false; false] None [2; 2]%nat [4]%nat None (Some 0%Z),
+   maskinterp_call_model [1; 2; 3; 4] [false; true; false; false] None [2; 2]%nat [2; 2]%nat None None) = (NDErr, NDErr, NDErr).
 Proof. exact eq_refl. Qed.
